@@ -42,9 +42,10 @@ ASSUMPTIONS = [
     "random draws of Rise / Lime / KernelShap / MuFidelity are made identical across wrappings by "
     "tf.keras.utils.set_random_seed before each run (eager mode when a TorchWrapper takes part, else graph mode); Sobol / "
     "HSIC designs are deterministic samplers",
-    "DEFECT modelled as found (C11_metric_callable_bs_none_refuted): Deletion / Insertion built on a NumPy callable or "
-    "predict_proba object with batch_size=None raise AttributeError (inputs.numpy() on a NumPy array); the check expects "
-    "exactly that and compares the remaining wrappings",
+    "the model of operator_batching is the current code (tf.convert_to_tensor in the batch_size=None branch); on the code as "
+    "found Deletion / Insertion built on a NumPy callable or predict_proba object with batch_size=None raised AttributeError "
+    "(C11_metric_callable_bs_none_refuted): such a run is a disagreement, reported as KNOWN-FINDING only if "
+    "known_findings.json lists it with status known",
     "TorchWrapper needs eager execution (np.moveaxis on the input): torch cases run with run_functions_eagerly(True), "
     "the previous setting is restored after each case",
 ]
@@ -688,8 +689,8 @@ def coq_term(case, res):
             return "false"
         return f"c11_oeq ({model}) (Some {core.cqlist(res['values'])})"
     # same
-    # faithful model of the container of the inputs: a metric holds NumPy arrays, so predictions_one_hot_callable fails
-    # (inputs.numpy()) exactly for callables / predict_proba objects under Deletion / Insertion with batch_size=None
+    # model of the container of the inputs (current code: never fails; the code as found failed on inputs.numpy() for
+    # callables / predict_proba objects under Deletion / Insertion with batch_size=None)
     pre = []
     names = []
     for w in case["wrappings"]:
@@ -779,6 +780,18 @@ def explain_failure(case, res, model):
     return dict(clause=f"{case['method']} gives the same result for every wrapping of the same function (same seeds); callables "
                        "under Deletion / Insertion with batch_size=None raise AttributeError (known defect, modelled)",
                 wrappings_that_differ=diff, raised={w: r for w, r in res["results"].items() if isinstance(r, str)})
+
+
+def classify_known(case, res, err, known):
+    """the AttributeError of metrics on callables with batch_size=None, when known_findings.json lists it as known"""
+    if case["stream"] != "same" or case["method"] not in ("Deletion", "Insertion") or case["bs"] is not None or not res:
+        return None
+    if not any(v == "AttributeError" for v in res["results"].values()):
+        return None
+    for e in known:
+        if e.get("status") == "known" and e.get("match", {}).get("kind") == "metric_callable_batch_size_none":
+            return e["id"]
+    return None
 
 
 def shrink(case):
